@@ -23,7 +23,7 @@ REQUIRED_MONITORS = ["lr:compared", "contract:lr_scale_func_adam", "contract:_ge
 REQUIRED_REACH = {"optim.py": ["lr_scale_for_depth", "_get_fan_in", "lr_scale_func_sgd", "lr_scale_func_adam",
                                "lr_scale_func_sgd.<locals>.lr_scale_func_sgd_inner", "scaled_parameters",
                                "SGD.__init__", "Adam.__init__", "AdamW.__init__"]}
-MIN_NONTRIVIAL = {"quick": 1500, "thorough": 30000}
+MIN_NONTRIVIAL = {"quick": 1500, "thorough": 200000}
 
 TAGS = ["weight", "bias", "norm", "output"]
 
